@@ -150,6 +150,17 @@ def run(ctx):
     tecb = F.body(QR + "try_execute_command")
     if tecb:
         r1.check(len(tecb.calls(QR + "set_sharding_key")) >= 2, "comment+command", "both the sharding_key comment and SET SHARDING KEY go through set_sharding_key", "set_sharding_key call sites in try_execute_command: %d" % len(tecb.calls(QR + "set_sharding_key")))
+    # `the selection persists until changed`: outside the router the selected shard is only ever put back to what it was (the refused SET SHARD);
+    # nothing in the client drops or replaces it (round 6: a checkout failure reset it to None - the next statement ran on the default shard)
+    nset = 0
+    for c in F.all_calls(QR + "set_shard"):
+        if c.body.name.startswith("pgcat::query_router::") or "::test::" in c.body.name:
+            continue
+        nset += 1
+        srcs_ = {o.call.name for o in origins(c.body, c.args[1], taint=True) if o.kind == "call"}
+        r1.check(QR + "shard" in srcs_, "selection-only-restored@" + c.body.name.replace("::{closure#0}", "").split("::")[-1], "the shard given to set_shard outside the router is a value read with QueryRouter::shard() before (restore)",
+                 "%s calls QueryRouter::set_shard with a value that is not a previously read selection (%s): the session's shard is dropped or replaced without a command of the client" % (c.body.name.replace("::{closure#0}", "").split("::")[-1], sorted(x.split("::")[-1] for x in srcs_) or "a constant"), c.where())
+    r1.check(nset >= 1, "external-set_shard-sites", "%d set_shard call site(s) outside the router" % nset, "no set_shard call outside the router (anchor of the SET SHARD refusal moved)")
     # ---------------- R2 out-of-range SET SHARD refused and rolled back
     r2 = ctx.rule("C06-R2", "SET SHARD to a shard that is not configured is answered with an error and the previous shard is restored", floor=3)
     from common import set_shard_refusal_findings
